@@ -65,7 +65,7 @@ func ruleX1(c *an.Ctx) {
 				}
 				// immediately invoked closure that writes it (error path must return non-nil)
 				if call, isCall := in.(*ssa.Call); isCall {
-					if f := call.Call.StaticCallee(); f != nil && f.Parent() == runJob {
+					if f := call.Call.StaticCallee(); f != nil && (f.Parent() == runJob || isPrivateHelperOf(p, runJob, f)) {
 						return closureWritesOrFails(f, writesJobInfo)
 					}
 				}
